@@ -168,6 +168,14 @@ func findFunctionCallViolation(
 	case *ast.Ident:
 		// Direct function call: CreateMockData()
 		funcName := fun.Name
+
+		// The identifier must denote the package-level function itself, not a local
+		// variable, parameter or closure that merely shares its name
+		if obj := ctx.pass.TypesInfo.Uses[fun]; obj != nil {
+			if _, isFunc := obj.(*types.Func); !isFunc || obj.Pkg() == nil || obj.Pkg().Path() != *ctx.currentPkgPath {
+				break
+			}
+		}
 		if ctx.testOnlyFuncs.Match(*ctx.currentPkgPath, funcName, funcName) {
 			return &TestOnlyViolation{
 				Pos:         call.Pos(),
